@@ -3,6 +3,8 @@ package checks
 import (
 	"fmt"
 	"math/rand"
+	"os"
+	"path/filepath"
 	"regexp"
 	"sort"
 	"strings"
@@ -182,10 +184,22 @@ func runC09(c *core.Ctx) {
 		if inLog {
 			cmds = c09LogCmds
 		}
+		// plus command shapes drawn from the catalogue (flag combinations nobody listed by hand) that read the corrupted file
+		cmds = append([][]string{}, cmds...)
+		fixed := len(cmds)
+		for tries := 0; len(cmds) < fixed+3 && tries < 40; tries++ {
+			sp := randomCmd(r, "x", "a", "DATE")
+			if (inLog && sp.Log) || (!inLog && sp.Book) {
+				cmds = append(cmds, sp.Args)
+			}
+		}
 		// a rotating subset keeps the run short; every command is hit hundreds of times overall
 		for ci, cmd := range cmds {
-			if (ci+i)%3 != 0 && c.Quick() {
+			if ci < fixed && (ci+i)%3 != 0 && c.Quick() {
 				continue
+			}
+			if ci >= fixed {
+				c.Count("runs_of_catalogue_shapes", 1)
 			}
 			args := append([]string{}, pre...)
 			for _, a := range cmd {
@@ -238,6 +252,51 @@ func runC09(c *core.Ctx) {
 			}
 			if cres.Exit == 0 || !mentionsLine(cres.ErrText(), planted[0][0], planted[0][1]) {
 				c.Violation("csv|pipe-differs-from-file", fmt.Sprintf("%s (piped): exit %d message %q; first planted line %v", joinArgs(cargs[len(pre):]), cres.Exit, clip(cres.ErrText(), 200), planted[0]), caseDoc{Files: map[string]string{"stdin": content}, Args: cargs, Expected: planted, Observed: resDoc(cres)})
+			}
+		}
+		// the same file with bytes that are not valid UTF-8 inside the malformed lines (a file saved as
+		// ISO-8859-1): the messages must still quote the line byte for byte. Real processes, because the
+		// in-process job protocol is JSON.
+		if i%6 == 1 && k > 0 {
+			seqs := []string{"\xe9", "\xe8", "\xff", "\xbd", "\xc3", "\xed\xa0\x80"}
+			nth := 0
+			content := regexp.MustCompile(`bad\d+q`).ReplaceAllStringFunc(files[target], func(m string) string {
+				nth++
+				return m + seqs[nth%len(seqs)] + "z"
+			})
+			var inv [][2]string
+			for li, ln := range strings.Split(content, "\n") {
+				if strings.Contains(ln, "bad") && regexp.MustCompile(`bad\d+q`).MatchString(ln) {
+					inv = append(inv, [2]string{fmt.Sprint(li + 1), strings.TrimRight(ln, "\r")})
+				}
+			}
+			os.WriteFile(filepath.Join(srv.Dir, "inv.yaml"), []byte(content), 0o644)
+			largs := append(append([]string{}, pre...), "lint", "inv.yaml")
+			lres := run.Exec(c.HR, largs, run.ExecOpts{Dir: srv.Dir})
+			var cargs []string
+			if inLog {
+				cargs = append(append([]string{}, pre...), "-l", "inv.yaml", "csv", "log")
+			} else {
+				cargs = append(append([]string{}, pre...), "-d", "inv.yaml", "csv", "database")
+			}
+			cres := run.Exec(c.HR, cargs, run.ExecOpts{Dir: srv.Dir})
+			c.Eval(2)
+			c.Count("runs_with_invalid_utf8_in_malformed_lines", 2)
+			msgs := obs.Lines(lres.Out)
+			idoc := caseDoc{Files: map[string]string{"inv.yaml": content, "food.yaml": book, "log.yaml": log}, Args: largs, Expected: inv, Observed: resDoc(lres)}
+			if len(msgs) != len(inv) {
+				c.Violation("lint|invalid-utf8-message-count", fmt.Sprintf("%d messages for %d malformed lines", len(msgs), len(inv)), idoc)
+			} else {
+				for j, pl := range inv {
+					if !mentionsLine(msgs[j], pl[0], pl[1]) {
+						c.Violation("lint|invalid-utf8-message-content", fmt.Sprintf("message %d %q does not name line %s and quote %q byte for byte", j, msgs[j], pl[0], pl[1]), idoc)
+						break
+					}
+				}
+			}
+			if cres.Exit == 0 || !mentionsLine(cres.ErrText(), inv[0][0], inv[0][1]) {
+				idoc.Args, idoc.Observed = cargs, resDoc(cres)
+				c.Violation("csv|invalid-utf8-message-content", fmt.Sprintf("exit %d, message %q does not name line %s and quote %q byte for byte", cres.Exit, clip(cres.ErrText(), 200), inv[0][0], inv[0][1]), idoc)
 			}
 		}
 		if i < 3 {
